@@ -317,7 +317,7 @@ func (k *Keys) ReadKey() (key rune, isAbort bool) {
 // firstKey returns the first key of a read, and keeps the other ones for later.
 func (k *Keys) firstKey(read []byte) rune {
 	key, size := utf8.DecodeRune(read)
-	k.buf = append(k.buf, read[size:]...)
+	k.buf = append(k.buf, k.convertMeta(read[size:])...)
 
 	return key
 }
